@@ -326,6 +326,12 @@ class MixinAnalysis:
                     ok = any(ev.kind == "GUARD" and ev.name == "is" and {ev.a, ev.b} == {NONE, q} and ev.outcome is False
                              for ev in pre)
                 if not ok:
+                    # `if value is None: if parent is not None: <detach>`: the new value is None and the stored parent is not -
+                    # the two differ, established by two tests against None instead of one against each other
+                    q_none = q == NONE or any(ev.kind == "GUARD" and ev.name == "is" and {ev.a, ev.b} == {q, NONE} and ev.outcome is True for ev in pre)
+                    old_set = any(ev.kind == "GUARD" and ev.name == "is" and {ev.a, ev.b} == {old, NONE} and ev.outcome is False for ev in pre)
+                    ok = q_none and old_set
+                if not ok:
                     ev = trace[first]
                     out.setdefault(("E1", ev.func.where, ev.stmt_text()), (Problem(
                         "E1", ev, "hook/link write reachable without the identity test `stored parent is not new parent`: "
